@@ -983,6 +983,11 @@ func (app *BaseApp) runTx(mode runTxMode, txBytes []byte, tx sdk.Tx) (result sdk
 	// Create a new context based off of the existing context with a cache wrapped
 	// multi-store in case message processing fails.
 	runMsgCtx, newMS := app.txContext(ctx, txBytes) // todo edit here!!!
+	if mode == runTxModeSimulate {
+		// a simulation must leave no trace: run the handler on the cache branch created for it
+		// (never written back) instead of on the stores shared with the deliver state
+		runMsgCtx = runMsgCtx.WithMultiStore(ctx.MultiStore())
+	}
 	result = app.runMsg(runMsgCtx, msgs, mode)
 	result.GasWanted = gasWanted
 
